@@ -426,6 +426,7 @@ func Rank(w *load.World, c *core.Collector) {
 	rankText(w, c)
 	weightDefaults(w, c)
 	ownFilter(w, c)
+	arrayTermSets(w, c)
 }
 
 func isParamOrCapture(f *ssa.Function, typeName string) func(ssa.Value) bool {
@@ -2737,5 +2738,72 @@ func metricFormula(w *load.World, c *core.Collector) {
 		} else {
 			c.Add("QDIST", key, core.OK, w.Position(fn.Pos()), "", props...)
 		}
+	}
+}
+
+// arrayTermSets: containsAll over an array index intersects the posting sets of all query terms.
+// In the loop of IndexInvertedArray.Search that collects those sets every iteration adds its set
+// (by append or by an indexed store): a term that is skipped because its set is empty — a term no
+// point holds — drops out of the intersection, and containsAll matches points that lack it.
+func arrayTermSets(w *load.World, c *core.Collector) {
+	props := []string{"C02"}
+	isSetWrite := func(in ssa.Instruction) bool {
+		switch x := in.(type) {
+		case *ssa.Call:
+			bi, ok := x.Call.Value.(*ssa.Builtin)
+			if !ok || bi.Name() != "append" {
+				return false
+			}
+			sl, ok := x.Type().Underlying().(*types.Slice)
+			return ok && strings.HasSuffix(sl.Elem().String(), "roaring64.Bitmap")
+		case *ssa.Store:
+			ia, ok := x.Addr.(*ssa.IndexAddr)
+			if !ok {
+				return false
+			}
+			return strings.HasSuffix(x.Val.Type().String(), "roaring64.Bitmap") && ia != nil
+		}
+		return false
+	}
+	done := false
+	for _, f := range w.Fns {
+		if done || load.PkgPath(f) != load.Mod+"/shard/index/inverted" || f.Name() != "Search" || f.Signature.Recv() == nil || len(f.Blocks) == 0 {
+			continue
+		}
+		if !strings.Contains(f.Signature.Recv().Type().String(), "IndexInvertedArray") {
+			continue
+		}
+		h := homeOf(f, func(g *ssa.Function) bool {
+			for _, b := range g.Blocks {
+				for _, in := range b.Instrs {
+					if isSetWrite(in) && inLoop(b) {
+						return true
+					}
+				}
+			}
+			return false
+		})
+		n := 0
+		for _, b := range h.Blocks {
+			for _, in := range b.Instrs {
+				if !isSetWrite(in) || !inLoop(b) {
+					continue
+				}
+				n++
+				key := fmt.Sprintf("array:every-term-set#%d", n)
+				if skippableInLoop(in) {
+					c.Add("RANK", key, core.Violation, w.At(in), "the loop that collects the posting sets of the queried array elements can go on to the next element without adding the set of this one: an element no point holds drops out of the intersection and containsAll matches points that lack it", props...)
+				} else {
+					c.Add("RANK", key, core.OK, w.At(in), "", props...)
+				}
+			}
+		}
+		if n == 0 {
+			c.Add("RANK", "anchor:array-term-sets", core.Undecided, w.Position(f.Pos()), "the loop that collects the posting sets of the queried array elements was not found", props...)
+		}
+		done = true
+	}
+	if !done {
+		c.Add("RANK", "anchor:array-search", core.Undecided, "", "IndexInvertedArray.Search not found", props...)
 	}
 }
